@@ -183,7 +183,7 @@ def _run(pid, tier, seed, ev, rep, quick, rng, exe, esolver, pr, pinf, ninf, wor
         if wb:
             opts += ["-b", "out.bas"]
         lp, cn, rn = seen[fmt][0], seen[fmt][1], seen[fmt][2]
-        jobs.append({"lp": lp, "cn": cn, "rn": rn, "dir": d, "name": name, "fmt": fmt, "opts": opts, "sol": sol, "wb": wb, "kft": kft, "force": force,
+        jobs.append({"idx": len(jobs), "every": 4 if quick else 2, "lp": lp, "cn": cn, "rn": rn, "dir": d, "name": name, "fmt": fmt, "opts": opts, "sol": sol, "wb": wb, "kft": kft, "force": force,
                      "comp": comp, "shape": shape})
     model.run()
 
@@ -205,6 +205,38 @@ def _run(pid, tier, seed, ev, rep, quick, rng, exe, esolver, pr, pinf, ninf, wor
             j["rc2"], j["err2"] = rc2, err2
             p2 = os.path.join(j["dir"], "out2.sol")
             j["sol2"] = read_out(p2) if os.path.exists(p2) else None
+        # the same bytes in the three containers must be solved alike - also when the text lacks its final newline
+        # (and, for MPS, the ENDATA line, which the reader only warns about)
+        if rc == 0 and j["idx"] % j["every"] == 0:
+            plainp = os.path.join(j["dir"], "w.lp" if j["fmt"] == "lp" else "w.mps")
+            data = open(plainp, "rb").read()
+            variants = [("full", data)]
+            cut = data[:-1] if data.endswith(b"\n") else data
+            if j["fmt"] == "mps" and cut.endswith(b"ENDATA"):
+                cut = cut[: -len(b"ENDATA")]
+                cut = cut[:-1] if cut.endswith(b"\n") else cut
+            variants.append(("no-final-newline", cut))
+            j["containers"] = []
+            for vn, vd in variants:
+                outs = []
+                for comp in ("", "gz", "bz2"):
+                    nm = "v_%s.%s%s" % (vn, j["fmt"], "." + comp if comp else "")
+                    write_file(os.path.join(j["dir"], nm), vd, comp)
+                    so = "v_%s_%s.sol" % (vn, comp or "plain")
+                    rcv, errv = run_esolver(esolver, ["-O", so, nm], j["dir"])
+                    pth = os.path.join(j["dir"], so)
+                    outs.append((comp or "plain", rcv, open(pth).read() if os.path.exists(pth) else None))
+                j["containers"].append((vn, outs))
+        # the basis esolver wrote, read by the library and judged by the exact verdict function
+        if j["wb"] and j["bas"] and rc == 0:
+            plain = "w.lp" if j["fmt"] == "lp" else "w.mps"
+            bt = proto.run_harness(exe, ["read 0 %s %s" % (j["fmt"].upper(), hx(plain)), "readbasis 0 " + hx("out.bas")], timeout=120, cwd=j["dir"])
+            b = proto.get(bt[-1][1], "basis") if len(bt) == 2 else None
+            if b and b != ["none"]:
+                vt = proto.run_harness(exe, ["read 0 %s %s" % (j["fmt"].upper(), hx(plain)), "optstatus 0 %s %s" % (b[0], b[1])], timeout=120, cwd=j["dir"])
+                j["verdict"] = (proto.get(vt[-1][1], "rval"), proto.get(vt[-1][1], "result")) if len(vt) == 2 else None
+            else:
+                j["verdict"] = "unreadable"
         try:
             j["ref"] = refsolve.classify(j["lp"])
         except Exception:
@@ -301,8 +333,19 @@ def _run(pid, tier, seed, ev, rep, quick, rng, exe, esolver, pr, pinf, ninf, wor
                 ent = s["secs"][sec]
                 ks[sec] = model2.ask("solsec %d %s %d %s" % (len(names), " ".join(hx(n) for n in names), len(ent), " ".join("%s %s" % (hx(n), v) for n, v in ent)))
             pend.append((j, s, ks, ctx))
+        for vn, outs in j.get("containers", []):
+            ev.stat("container-triples:" + vn)
+            if len(set((rcv, txt) for _, rcv, txt in outs)) > 1:
+                rep.violation("the same problem text (%s) is treated differently depending on the container: %s" %
+                              (vn, "; ".join("%s: exit %s, %s" % (c, rcv, "no solution file" if txt is None else txt.split("\n")[0] + " " + (txt.split("\n")[2] if len(txt.split("\n")) > 2 else "")) for c, rcv, txt in outs)),
+                              ctx, signature={"symptom": "container-dependent", "variant": vn})
+        if j.get("verdict") is not None and s["status1"] == "OPTIMAL":
+            ev.stat("written-bases-judged")
+            if j["verdict"] == "unreadable" or j["verdict"] != (["0"], ["1"]):
+                rep.violation("the basis esolver -b wrote for an OPTIMAL run is not accepted as optimal by QSexact_basis_optimalstatus after reading it back (%s)" % (j["verdict"],), ctx,
+                              signature={"symptom": "written-basis-not-optimal"})
         # -B round
-        if j.get("rc2") is not None:
+        if j.get("rc2") is not None and s["status1"] == "OPTIMAL":
             ev.stat("basis-round-trips")
             if j["rc2"] != 0:
                 rep.violation("esolver -B with the basis esolver -b wrote exits %s" % j["rc2"], dict(ctx, stderr2=j["err2"][-800:]), signature={"symptom": "basis-readback-exit", "truth": truth})
